@@ -40,7 +40,7 @@ from apischema.metadata.keys import (
     SKIP_METADATA,
     VALIDATORS_METADATA,
 )
-from apischema.types import AnyType, NoneType, UndefinedType
+from apischema.types import AnyType, NoneType, Undefined, UndefinedType
 from apischema.typing import get_args, is_annotated
 from apischema.utils import (
     LazyValue,
@@ -191,6 +191,8 @@ class ObjectField:
             )
             or self.none_as_undefined
             or (none and is_union_of(self.type, NoneType))
+            # Undefined default makes the field skippable even if Undefined is not in its type
+            or (not self.required and self.get_default() is Undefined)
         )
 
     @property
